@@ -32,10 +32,12 @@ def eval_program(arg) -> dict:
             return any(info['ports'][p]['n_out'] and not info['ports'][p]['n_in']
                        for p in info['provides'])
         return requires_in if stream % 2 == 0 else (provides_out and requires_in)
+    # the last program of a run arbiters an interface that has no out-events at all
+    mc_in_only = stream % 10 == 9
     prog, case, rng = progrun.make_program(
-        PROP, seed, stream, scratch, stream % 3 == 1,
+        PROP, seed, stream, scratch, stream % 3 == 1 or mc_in_only,
         mc_position=['first', 'middle', 'last'][(stream // 3) % 3], mc_shape=stream // 3,
-        accept=has_user_bound_events)
+        accept=None if mc_in_only else has_user_bound_events, mc_no_outs=mc_in_only)
     # cover every semantics x direction combination in every run, whatever the random draw
     if stream % 2 == 0:
         prog.enc['requires'] = {'sts': 'NONE', 'mts': 'ALL'}
@@ -53,6 +55,8 @@ def eval_program(arg) -> dict:
     cnt = out['counts']
     if notify_only:
         cnt['programs_with_a_notification_only_mts_provides_port'] = 1
+    if mc_in_only:
+        cnt['programs_arbitering_an_interface_without_out_events'] = 1
 
     def play(lines, tag, expect_throw, what):
         script = '\n'.join(lines) + '\n'
@@ -147,12 +151,13 @@ def main(tier: str) -> int:
     if not cxxlab.tools_available():
         raise common.Inconclusive('g++ / clang++-14 not available')
     run = common.Run(PROP, tier, level='fault_enumeration')
-    n = 9 if tier == 'quick' else 200
+    n = 10 if tier == 'quick' else 200
     run.require('final_constructions', 'all_bound_runs', 'user_side_bindings_omitted',
                 'component_side_bindings_omitted', 'omitted_on_STS_port', 'omitted_on_MTS_port',
                 'omitted_on_multiclient_port', 'late_registrations',
                 'late_registration_after_0_clients',
                 'programs_with_a_notification_only_mts_provides_port',
+                'programs_arbitering_an_interface_without_out_events',
                 'omitted_on_MTS_requires_port', 'omitted_on_MTS_provides_port',
                 'omitted_on_STS_requires_port', 'omitted_on_STS_provides_port')
     scratch = run.scratch()
